@@ -265,6 +265,6 @@ pub fn def() -> PropDef {
         level: "exploration",
         rule: "one case = ROUTER socket with 1..4 scripted peers (DEALER/REQ/ROUTER; identity none, 1, 16 or 255 bytes), each sending 1..4 tagged messages at drawn times, some departing after the handshake; then 1..8 routed sends to targets drawn from {each peer, departed peer, unknown identity (empty, 1, 17, 256 bytes)}; taps snapshotted around every send; transport and schedule drawn per case; non-trivial = more than one peer and at least one routed send judged; distinct = distinct (plan, schedule, transport) hashes",
         assumptions: &["announced identities are unique (the generator never duplicates them)", "single-frame sends are outside the statement (the socket asserts on them)", "a departed peer is used as a target only once its connection is closed"],
-        strata: vec![Stratum { name: "router_world", quick: 120_000, thorough: 2_000_000, exhaustive: (false, false), run: router_world, what: "labelling of inbound messages and routing of outbound ones, checked on connection taps" }],
+        strata: vec![Stratum { name: "router_world", quick: 120_000, thorough: (2_000_000) * 5, exhaustive: (false, false), run: router_world, what: "labelling of inbound messages and routing of outbound ones, checked on connection taps" }],
     }
 }
